@@ -27,7 +27,7 @@ NOT_APPLICABLE = {
     "C12": "statistical accuracy claim over the output distribution of an external stochastic forward model: there is no "
            "forall-statement to prove, only batches to sample, which this technique family may not substitute for a theorem",
 }
-HOOK_COMMITS = []
+HOOK_COMMITS = ["73ba0d54d0fb8567788edea16642a1256faee1af"]
 
 def load_props():
     """tools/propcfg/Cxx.py each define CFG (one file per property, so that work on different
